@@ -158,7 +158,7 @@ def install_observers(sim, rec, snapshots=True):
         rec.obj_ctx_kinds[kind] = rec.obj_ctx_kinds.get(kind, 0) + 1
         if kind == "process" and rec.steps == 0 and not rec.snapshots:
             # initial population built by worker processes: which process evaluated which point, in its own order
-            seq = rec.init_positions_by_ctx.setdefault((t.ctx.pid, t.ctx.label), [])
+            seq = rec.init_positions_by_ctx.setdefault((t.ctx.pid, t.ctx.label, t.ctx.parent), [])
             if len(seq) < 64:
                 seq.append(_freeze(x))
         key = id(tdesc)
@@ -268,9 +268,12 @@ def run_scenario(desc, keep_events=0, event_kinds=None, pre_ops=None) -> RunReco
             if desc.get("history_config") and desc.get("history"):
                 opt.set_config_parameters(copy.deepcopy(desc["history_config"]))
                 sim.count("history_other_configuration")
+            reuse = None
             for h in desc.get("history") or []:
                 try:
                     ht = tasks.build_task(h["task"])
+                    if h.get("reuse_object"):
+                        reuse = ht
                     ho = opt if h.get("instance", "same") == "same" else cls(make_config(desc["optimizer"], desc["config"]))
                     hres = ho.optimize(ht, mode=h.get("mode", "serial"), workers=h.get("workers"))
                     if h.get("mode", "serial") != "serial":
@@ -295,6 +298,13 @@ def run_scenario(desc, keep_events=0, event_kinds=None, pre_ops=None) -> RunReco
             if task is None:
                 task = tasks.build_task(desc["task"])
                 rec.task_obj = task
+            if reuse is not None and type(reuse) is type(task) and reuse.space_dimension == task.space_dimension:
+                # one Task object, re-declared in place by the caller between the runs
+                for f_ in ("variables", "minmax", "data", "objective_weights", "seed"):
+                    setattr(reuse, f_, getattr(task, f_))
+                task = reuse
+                rec.task_obj = task
+                sim.count("task_object_redeclared_in_place")
             elif desc["task"]["objective"].get("user_state") is None:
                 tasks.USER_STATE["offset"] = 0.0
             rec.cfg_before = dump_model(cfg)
